@@ -99,6 +99,15 @@ def run(tier, v):
         udp[23] = 17
         frames.append(bytes(udp))
         frames.append(b"\x00" * 10)
+        # other framings of the same kind of packet (raw IP, loopback header), and Ethernet frames whose IP version nibble
+        # contradicts the EtherType (the protocol analyzers go by the EtherType: so must the unified one)
+        synopts = b"\x02\x04\x05\xb4\x04\x02\x08\x0a\x00\x00\x10\x00\x00\x00\x00\x00\x01\x03\x03\x07"
+        for k, link in enumerate(("raw", "null")):
+            frames.append(c10.relink(c10.frame((10, 7, 1, 1 + k), (10, 7, 0, 2), 41100 + k, 80, 5, 0, 0x02, opts=synopts, ipid=9010 + k), link))
+        for k, nib in enumerate((0x05, 0x65, 0xf5, 0x15)):
+            b = bytearray(c10.frame((10, 7, 2, 1 + k), (10, 7, 0, 2), 41200 + k, 80, 5, 0, 0x02, opts=synopts, ipid=9020 + k))
+            b[14] = nib
+            frames.append(bytes(b))
         rng.shuffle(frames)
         # keep per-connection order: re-sort the shuffled list by original index within each connection is not needed for the
         # relation (both sides see the same order); but handshakes should precede data for interesting results
